@@ -30,10 +30,12 @@ class Product:
             if kind == "amcfs":  # an async fsspec implementation over the same store; every other handling is mcfs'
                 self.kind = kind = "mcfs"
             self.dir = None
-        elif kind in ("local", "file"):
+        elif kind in ("local", "file", "mclocal"):
             self.dir = env.scratch_root() / f"prod_{self.tag}"
             synth.write_local(self.dir, files)
-            self.url = str(self.dir) if kind == "local" else self.dir.as_uri()
+            self.url = str(self.dir) if kind == "local" else self.dir.as_uri() if kind == "file" else f"mclocal://{self.dir}"
+            if kind == "mclocal":  # the local filesystem with observable / schedulable reads
+                self.kind = "local"
         elif kind.startswith("links-"):
             # a local product some of whose entries are symbolic links (images kept on another disk, annexed checkouts):
             # links-img = the IMG- files, links-all = every file, links-dir = the product directory itself
